@@ -1,7 +1,7 @@
 """C16 Public views and default exports never contain private key material.
 
 E2 explicit-state search over call histories on real Key / HDKey / WalletKey / Wallet / Transaction
-objects; oracle = a scanner that searches the complete value / object graph / pickle bytes / printed
+objects (and, per reached state, over the argument forms of every public request); oracle = a scanner that searches the complete value / object graph / pickle bytes / printed
 text of every public view for every encoding of every secret in play.  The secret encodings are
 computed with the reference (vf/ref: Base58Check, BIP32, golden network prefixes), never with the
 library.  A second part scans the raw bytes of sqlite files written with field encryption on.
@@ -56,6 +56,23 @@ RULE = (
     'both 16-byte halves (BIP38 plaintext halves), hex lower/upper (whole, halves, without leading zeros), the '
     'int, its decimal string, WIF compressed/uncompressed under every network prefix, the extended private key '
     'under every private version prefix, and any Base58 token whose decoded payload contains the raw key. '
+    'Argument forms (sub-space hdargs): a public request is a method AND its arguments, so for private HDKey / Key '
+    'configurations, in every state reached by a history of length <= 1 (thorough: additionally <= 2 with the '
+    'quick request grid), every public request is made with every form of its arguments: subkey_for_path over '
+    'the public path contents (bare M, M/i, M/i/j, M/i/j/k, index alphabet {0,1,2^31-1,..}, hardened items that '
+    'must be refused) x the form of the path argument (str, list, tuple, list with integer items) x network '
+    'argument (omitted, own, other) x receiver (private object, its public()); child_public over index x '
+    'positional/keyword x network; public_master / public_master_multisig over every spelling of as_private that '
+    'asks for the public key (omitted, False, 0, None, empty string) x derivation arguments (account_id, purpose, '
+    'multisig, witness_type); wif / wif_public over the spellings of is_private x witness_type x multisig, '
+    'prefix (private / public version bytes, hex / bytes), child_index; as_dict / as_json / as_hex / as_bytes '
+    'over the spellings of the flag, keyword and positional. The needles contain the private counterpart of '
+    'every request (reference derivation of every path and all its prefixes); a request whose result IS the '
+    'private receiver is classified by name; a result holding a private scalar outside the needles that is the '
+    'key of the public key it shows is a deviation too. Signature site = method + class of the argument form '
+    '(never the argument values; they are in the detail). Wallet / WalletKey: the default exports are also taken '
+    'with every explicit falsy spelling of include_private / is_private / as_private (bundled per method) in the '
+    'states reached by histories of length <= 1. '
     'Database at rest: a subprocess with DB_FIELD_ENCRYPTION_KEY (separately DB_FIELD_ENCRYPTION_PASSWORD) creates '
     'wallets of each kind, derives/imports keys, sends a transaction, closes; the bytes of the sqlite file (and '
     'journal files) are scanned with the same needles; the run without encryption is the positive control.')
@@ -80,6 +97,13 @@ ASSUMPTIONS = [
     'as_dict()/as_json()/repr/str of Key, HDKey, Address, WalletKey, Wallet, Transaction, Input, Output, '
     'WalletTransaction; info() of public objects, of Wallet and of Transaction; the default-argument list '
     'exports of Wallet (keys(as_dict=True), transactions(as_dict=True), transactions_export, utxos, addresslist)',
+    "a derivation path that starts with 'M' asks for public derivation (BIP32 notation; the library derives "
+    "'M/0/1' with child_public, its test-suite asserts a public key for it, and wallets store public keys under "
+    "path 'M'), whatever the type of the path argument (documented: str, list; a tuple or integer items are "
+    'accepted or refused by the library - a refusal is fine, a value is judged); so the result of every M-path '
+    'request is a public view, including the bare M (recorded as known finding: it returns the private object)',
+    'a flag that asks for private data only when true (include_private, private, is_private, as_private) asks '
+    "for the public form under every falsy spelling (False, 0, None, ''), keyword or positional",
     'repr of a private WalletKey is the default repr of a key and is therefore checked (it prints the private '
     'extended key; recorded as known finding, it is pinned by a doctest of the library)',
     'ORM entities met in a returned value are read through __dict__ (what pickle would serialise), relationships '
@@ -437,7 +461,7 @@ def _simple(v):
     return False
 
 
-def scan_view(acc, nd, view, value, hist, forms=True):
+def scan_view(acc, nd, view, value, hist, forms=True, request=None):
     """Scan a view value as returned, as pickle bytes, unpickled and deep-copied; True if something leaked.
 
     Signature = view | form class | attribute-path class | encoding class, form class being 'value' (as
@@ -470,9 +494,37 @@ def scan_view(acc, nd, view, value, hist, forms=True):
             hits = walk(v, nd)
         for path, name, enc in sorted(hits):
             leaked = True
-            acc.dev('%s|%s|%s|%s' % (view, form, path, _encclass(enc)),
-                    {'history': hist, 'cfg': acc.where, 'secret': name, 'encoding': enc, 'path': path})
+            d = {'history': hist, 'cfg': acc.where, 'secret': name, 'encoding': enc, 'path': path}
+            if request is not None:
+                d['request'] = request
+            acc.dev('%s|%s|%s|%s' % (view, form, path, _encclass(enc)), d)
     return leaked
+
+
+class Named(object):
+    """Returned by a view instead of a value when the wrong behaviour is classified by name (not by the scanner)."""
+
+    def __init__(self, cls, detail, site=None):
+        self.cls = cls
+        self.detail = detail
+        self.site = site        # coarser signature site than the one of the request (None: the request's site)
+
+
+def _private_scalars(acc, nd, site, value, hist, request):
+    """Oracle completeness for requests with arguments: a key object handed out by a public request that holds a
+    private scalar which is NOT one of the reference needles (the scanner cannot know it) but IS the private key
+    of the public key the object shows (reference secp) is private key material all the same."""
+    found = False
+    for x in (value if isinstance(value, (list, tuple)) else [value]):
+        k = getattr(x, 'secret', None)
+        if not isinstance(k, int) or isinstance(k, bool) or k in nd.ints or not 0 < k < N:
+            continue
+        pb = getattr(x, 'public_byte', None) or getattr(x, 'public_compressed_byte', None) or b''
+        if bytes(pb) in (secp.ser(secp.pub(k), True), secp.ser(secp.pub(k), False)):
+            found = True
+            acc.dev('%s|value|secret|private-key-of-the-result-outside-the-reference-set' % site,
+                    {'history': hist, 'cfg': acc.where, 'request': request})
+    return found
 
 
 def _encclass(enc):
@@ -520,7 +572,11 @@ def _explore_state(acc, nd, cfgid, hist, make, views, state_of, forms, clone):
     else:
         obj, dirty = None, True
     replays = 1
-    for label, fn in views:
+    for view in views:
+        # (label, fn) or (label, fn, site): label identifies the evaluation (it may spell out the arguments of the
+        # request), site is the finite class of it that goes into the signature
+        label, fn = view[0], view[1]
+        site = view[2] if len(view) > 2 else label
         if dirty:
             if obj is not None:
                 _dispose(obj)
@@ -544,7 +600,15 @@ def _explore_state(acc, nd, cfgid, hist, make, views, state_of, forms, clone):
             val = None
             leaked = scan_view(acc, nd, label + '!exception', repr(e), hist, forms=False)
         else:
-            leaked = scan_view(acc, nd, label, val, hist, forms)
+            if isinstance(val, Named):
+                acc.n += 1
+                acc.dev('%s|%s' % (val.site or site, val.cls),
+                        dict(val.detail, history=hist, cfg=acc.where, request=label))
+                leaked = True
+            else:
+                leaked = scan_view(acc, nd, site, val, hist, forms, request=label if site != label else None)
+                if site != label and _private_scalars(acc, nd, site, val, hist, label):
+                    leaked = True
             acc.out['view:leak' if leaked else 'view:clean'] += 1
             acc.nt.append(jhash([cfgid, s0, label]))
         dirty = state_of(obj) != s0
@@ -599,10 +663,10 @@ def _derive_unc_root(x, p):
     return bip32.derive(c, p[1:])
 
 
-def hd_family(name, x, net, unc_root=False):
+def hd_family(name, x, net, unc_root=False, extra=()):
     """The private descendants of x that the alphabets can derive (superset), as Secrets."""
     out = [Secret.from_xkey(name, x)]
-    paths = [[0], [H], [H, 1], [1], [5]]
+    paths = [[0], [H], [H, 1], [1], [5]] + [list(p) for p in extra]
     c = COIN[net] | H if COIN[net] < H else COIN[net]
     for purpose in (44, 45, 48, 49, 84, 86):
         paths += [[purpose | H], [purpose | H, c], [purpose | H, c, H]]
@@ -1047,6 +1111,242 @@ def sub_hdkey(case):
     return acc.result({'state': s0, 'enabled': events})
 
 
+# ===================================================================================== sub-space: argument forms
+# A public request is a method AND its arguments.  The sub-spaces above call every view with one spelling of its
+# arguments; here the argument space of every public request of Key / HDKey is enumerated: every documented type
+# of a path argument (str / list) plus the tuple and the list with integer items, the public path contents, the
+# network argument, every spelling of a flag that asks for the public form (omitted, False, 0, None, ''),
+# keyword / positional, and the derivation arguments of public_master / wif / wif_public.  The oracle is the
+# same scanner; the needles contain the private counterpart of every request (reference derivation).
+_OMIT = ['omitted']
+FLAG_FORMS = [('omitted', _OMIT), ('False', False), ('0', 0), ('None', None), ("''", '')]
+IMAX = H - 1
+
+# contents of public paths ('M' = public master key, BIP32 notation)
+PUB_PATHS_Q = [['M'], ['M', '0'], ['M', '0', '1'], ['M', '1', str(IMAX)], ['M', '3', '2', '7'], ['M', "0'", '1']]
+PUB_PATHS_T = [['M', '1'], ['M', str(IMAX)], ['M', '0', '0'], ['M', '1', '0'], ['M', '1', '1'], ['M', '0', str(IMAX)],
+               ['M', str(IMAX), '0'], ['M', str(IMAX), '1'], ['M', str(IMAX), str(IMAX)], ['M', '0', '0', '0', '0'],
+               ['M', '0', '1h'], ['M', '5H']]
+CHILD_INDEXES = [0, 1, IMAX, H]
+PM_SHAPES_Q = [('default', {}), ('account_id=1', {'account_id': 1}), ('multisig=True', {'multisig': True}),
+               ('witness_type=legacy', {'witness_type': 'legacy'})]
+PM_SHAPES_T = [('account_id=0', {'account_id': 0}), ('purpose=44', {'purpose': 44}),
+               ('purpose=48,multisig=True', {'purpose': 48, 'multisig': True}), ('multisig=False', {'multisig': False}),
+               ('witness_type=segwit', {'witness_type': 'segwit'}),
+               ('witness_type=p2sh-segwit', {'witness_type': 'p2sh-segwit'})]
+PMM_SHAPES_Q = [('default', {})]
+PMM_SHAPES_T = [('account_id=1', {'account_id': 1}), ('witness_type=p2sh-segwit', {'witness_type': 'p2sh-segwit'}),
+                ('purpose=45', {'purpose': 45})]
+WTS = [None, 'legacy', 'segwit', 'p2sh-segwit']
+MSS = [None, False, True]
+
+
+def _path_ints(items):
+    """Index list of a path content (root letter dropped); None where an item is not an index."""
+    out = []
+    for it in items[1:]:
+        hard = it[-1] in "'HhPp"
+        out.append(int(it[:-1] if hard else it) | (H if hard else 0))
+    return out
+
+
+def _path_forms(items):
+    forms = [('str', '/'.join(items)), ('list', list(items)), ('tuple', tuple(items))]
+    li = [int(i) if i.isdigit() else i for i in items]
+    if li != list(items):
+        forms.append(('list-int', li))
+    return forms
+
+
+def _path_class(items):
+    if len(items) == 1:
+        return 'bare %s' % items[0]
+    if any(it[-1] in "'HhPp" for it in items[1:]):
+        return '%s/..hardened..' % items[0]
+    return '%s/i..' % items[0]
+
+
+def _kw(**kw):
+    return dict((k, v) for k, v in kw.items() if v is not _OMIT)
+
+
+def _argtxt(args, kw):
+    return ', '.join([repr(a) for a in args] + ['%s=%r' % (k, kw[k]) for k in sorted(kw)])
+
+
+def _v_subkey(recv, arg, net):
+    def fn(o):
+        r = o if recv == 'priv' else _pub(o)
+        res = r.subkey_for_path(arg) if net is None else r.subkey_for_path(arg, network=net)
+        if res is r and recv == 'priv':
+            # no derivation step was taken: the object handed out IS the private object the request was made on
+            return Named('returns-the-private-receiver-itself', {'path': repr(arg)},
+                         site='HDKey.subkey_for_path(%s)' % _path_class(
+                             arg.split('/') if isinstance(arg, str) else [str(a) for a in arg]))
+        return res
+    return fn
+
+
+def _v_call(name, args, kw, recv='priv'):
+    def fn(o):
+        r = o if recv == 'priv' else _pub(o)
+        res = getattr(r, name)(*args, **kw)
+        if res is r and recv == 'priv':
+            return Named('returns-the-private-receiver-itself', {'args': _argtxt(args, kw)})
+        return res
+    return fn
+
+
+def flag_views(cls):
+    """Default exports of a private Key / HDKey with every spelling of the flag that asks for the public form."""
+    V = []
+    for meth, flag in (('as_dict', 'include_private'), ('as_json', 'include_private'), ('as_hex', 'private'),
+                       ('as_bytes', 'private')):
+        for fname, f in FLAG_FORMS:
+            site = '%s.%s(%s=%s)' % (cls, meth, flag, fname)
+            V.append((site + ' keyword', _v_call(meth, (), _kw(**{flag: f})), site))
+            if f is not _OMIT:
+                V.append((site + ' positional', _v_call(meth, (f,), {}), site))
+    return V
+
+
+def hdargs_views(cfg, full):
+    net = cfg['net']
+    other = 'testnet' if net != 'testnet' else 'bitcoin'
+    V = []
+    # ---- A. public derivation paths x form of the path argument x network argument x receiver
+    contents = PUB_PATHS_Q + (PUB_PATHS_T if full else [])
+    for items in contents:
+        pc = _path_class(items)
+        for fname, arg in _path_forms(items):
+            nets_ = [None] + ([net, other] if (full or items == ['M', '0', '1']) else [])
+            for nw in nets_:
+                site = 'HDKey.subkey_for_path(%s as %s%s)' % (pc, fname, ', network' if nw else '')
+                V.append(('HDKey.subkey_for_path(%s)' % _argtxt((arg,), _kw(network=nw or _OMIT)),
+                          _v_subkey('priv', arg, nw), site))
+    for items in [c for c in contents if len(c) in (1, 3)][:(None if full else 2)]:
+        for root in ('M', 'm'):
+            it2 = [root] + items[1:]
+            for fname, arg in _path_forms(it2):
+                site = 'HDKey.public>subkey_for_path(%s as %s)' % (_path_class(it2), fname)
+                V.append(('HDKey.public>subkey_for_path(%r)' % (arg,), _v_subkey('pub', arg, None), site))
+    # ---- B. child_public: index x positional / keyword x network
+    V.append(('HDKey.child_public()', _v_call('child_public', (), {}), 'HDKey.child_public(index omitted)'))
+    for i in CHILD_INDEXES:
+        for nw in [None] + ([net, other] if (full or i == 1) else []):
+            kw = _kw(network=nw or _OMIT)
+            sfx = ', network' if nw else ''
+            V.append(('HDKey.child_public(%s)' % _argtxt((i,), kw), _v_call('child_public', (i,), kw),
+                      'HDKey.child_public(index positional%s)' % sfx))
+            kw = dict(kw, index=i)
+            V.append(('HDKey.child_public(%s)' % _argtxt((), kw), _v_call('child_public', (), kw),
+                      'HDKey.child_public(index keyword%s)' % sfx))
+    # ---- C. public_master / public_master_multisig: spelling of as_private x derivation arguments
+    for meth, shapes in (('public_master', PM_SHAPES_Q + (PM_SHAPES_T if full else [])),
+                         ('public_master_multisig', PMM_SHAPES_Q + (PMM_SHAPES_T if full else []))):
+        for sname, skw in shapes:
+            for fname, f in FLAG_FORMS:
+                kw = dict(skw, **_kw(as_private=f))
+                V.append(('HDKey.%s(%s)' % (meth, _argtxt((), kw)), _v_call(meth, (), kw),
+                          'HDKey.%s(as_private=%s)' % (meth, fname)))
+    # ---- D. extended key exports: spelling of is_private x witness_type x multisig; prefix; child_index
+    pub_ver = nets.hd_prefix(net, False) or bip32.XPUB
+    prv_ver = nets.hd_prefix(net, True) or bip32.XPRV
+    for fname, f in FLAG_FORMS:
+        for wt in WTS:
+            for ms in MSS:
+                kw = _kw(is_private=f, witness_type=_OMIT if wt is None else wt, multisig=_OMIT if ms is None else ms)
+                V.append(('HDKey.wif(%s)' % _argtxt((), kw), _v_call('wif', (), kw),
+                          'HDKey.wif(is_private=%s)' % fname))
+        for pname, pf in (('private version as hex', prv_ver.hex()), ('public version as bytes', pub_ver)):
+            kw = _kw(is_private=f, prefix=pf)
+            V.append(('HDKey.wif(%s)' % _argtxt((), kw), _v_call('wif', (), kw),
+                      'HDKey.wif(is_private=%s, prefix)' % fname))
+        if f is not _OMIT:
+            V.append(('HDKey.wif(%r)' % (f,), _v_call('wif', (f,), {}), 'HDKey.wif(is_private=%s)' % fname))
+    for ci in (0, 5):       # child_index is written to the object: the next view gets a new replica
+        for fname, f in FLAG_FORMS[:2]:
+            kw = _kw(is_private=f, child_index=ci)
+            V.append(('HDKey.wif(%s)' % _argtxt((), kw), _v_call('wif', (), kw),
+                      'HDKey.wif(is_private=%s, child_index)' % fname))
+    for pf in (_OMIT, prv_ver.hex(), pub_ver):
+        for wt in WTS:
+            for ms in MSS:
+                kw = _kw(prefix=pf, witness_type=_OMIT if wt is None else wt, multisig=_OMIT if ms is None else ms)
+                V.append(('HDKey.wif_public(%s)' % _argtxt((), kw), _v_call('wif_public', (), kw),
+                          'HDKey.wif_public(arguments)'))
+    # ---- E. flags of the default exports
+    V += flag_views('HDKey')
+    labels = [v[0] for v in V]
+    if len(set(labels)) != len(labels):
+        raise HarnessError('argument-form requests are not distinct')
+    return V
+
+
+def _args_extra_paths(net):
+    """Index paths of the private counterparts of the requests (and of all their prefixes)."""
+    out = []
+    for items in PUB_PATHS_Q + PUB_PATHS_T:
+        p = _path_ints(items)
+        for n in range(1, len(p) + 1):
+            if p[:n] not in out:
+                out.append(p[:n])
+    out += [[i] for i in CHILD_INDEXES if i < H and [i] not in out]
+    c = COIN[net] | H if COIN[net] < H else COIN[net]
+    for purpose in (44, 45, 48, 49, 84, 86):
+        out += [[purpose | H, c, 1 | H, st | H] for st in (1, 2)]
+    return out
+
+
+def _hdargs_secrets(cfg):
+    other = 'testnet' if cfg['net'] != 'testnet' else 'bitcoin'
+    unc = cfg['src'] in UNC_SRC
+    return (hd_family('hd', hd_ref(cfg), cfg['net'], unc, _args_extra_paths(cfg['net'])) +
+            hd_family('hd', hd_ref(cfg), other, unc, _args_extra_paths(other)))
+
+
+def sub_hdargs(case):
+    """Private Key / HDKey in the state reached by a history: every public request x every form of its arguments."""
+    cfg, hist = case['cfg'], case['hist']
+    acc = Acc(_cfgid(cfg))
+    full = bool(cfg.get('full'))
+    if cfg['kind'] == 'key':
+        nd = _needles(cfg, _key_secrets)
+        build, event, views = key_build, key_event, flag_views('Key')
+        events = KEY_EVENTS + ([] if cfg.get('quick') else KEY_EVENTS_T)
+    else:
+        nd = _needles(dict(cfg, needles='args'), _hdargs_secrets)
+        build, event, views = hd_build, hd_event, hdargs_views(cfg, full)
+        events = HD_EVENTS + (HD_EVENTS_T if cfg.get('events_t') else [])
+
+    def make():
+        o = build(cfg)
+        for ev in hist:
+            try:
+                event(o, ev, cfg)
+            except HarnessError:
+                raise
+            except Exception as e:
+                acc.out['event_raised:%s' % ev] += 1
+        return o
+    if not hist and cfg['kind'] == 'hdkey':
+        # positive controls: the private counterparts of the requests are found by the scanner
+        o = make()
+        control(acc, nd, 'subkey_for_path(m/3/2/7)', o.subkey_for_path('m/3/2/7'), ['raw', 'hex', 'int'])
+        control(acc, nd, 'subkey_for_path([m,1,2^31-1])', o.subkey_for_path(['m', '1', str(IMAX)]),
+                ['raw', 'hex', 'int'])
+        control(acc, nd, 'child_private(2^31-1)', o.child_private(IMAX), ['raw', 'hex', 'int'])
+        control(acc, nd, 'public_master(account_id=1,as_private=True)',
+                copy.deepcopy(o).public_master(account_id=1, as_private=True), ['raw', 'hex', 'int'])
+        control(acc, nd, 'public_master_multisig(account_id=1,as_private=1)',
+                copy.deepcopy(o).public_master_multisig(account_id=1, as_private=1), ['raw', 'hex', 'int'])
+        control(acc, nd, 'wif(is_private=1)', o.wif(is_private=1), ['xprv'])
+        control(acc, nd, 'as_bytes(private=1)', o.as_bytes(private=1), ['raw'])
+    s0, replays = explore_state(acc, nd, _cfgid(cfg), hist, make, views, digest, clone=copy.deepcopy)
+    acc.out['requests_per_state:%d' % len(views)] += 1
+    return acc.result({'state': s0, 'enabled': events})
+
+
 # ===================================================================================== wallet templates
 TO_ADDR_HASH = bytes(range(1, 21))
 
@@ -1386,6 +1686,26 @@ def w_views():
     ]
 
 
+_FALSY = [False, 0, None, '']
+
+
+def w_flag_views():
+    """The default exports of a wallet with every explicit spelling of the flag that asks for the public form
+    (bundled per method; taken in the states reached by histories of length <= 1, thorough <= 2)."""
+    return [
+        ('Wallet.wif(is_private=<falsy>)', lambda b: [_try(lambda f=f: b.w.wif(is_private=f)) for f in _FALSY] + [
+            _try(lambda f=f: b.w.wif(f)) for f in _FALSY] + [_try(lambda: b.w.wif(account_id=0))]),
+        ('Wallet.as_dict(include_private=<falsy>)', lambda b: [
+            (_try(lambda f=f: b.w.as_dict(include_private=f)), _try(lambda f=f: b.w.as_json(include_private=f)))
+            for f in _FALSY] + [_try(lambda: b.w.as_dict(False)), _try(lambda: b.w.as_json(False))]),
+        ('Wallet.keys(as_dict,include_private=<falsy>)', lambda b: [
+            _try(lambda f=f: b.w.keys(as_dict=True, include_private=f)) for f in _FALSY]),
+        ('Wallet.public_master(as_private=<falsy>)', lambda b: [(lambda pm: (pm, [
+            (_try(k.as_dict), repr(k), k.wif, _try(k.key)) for k in _aslist(pm)]))(
+                b.w.public_master(as_private=f)) for f in _FALSY]),
+    ]
+
+
 def _aslist(x):
     return x if isinstance(x, list) else [x]
 
@@ -1424,6 +1744,8 @@ def sub_wallet(case):
     views = w_views()
     if not cfg.get('full'):
         views = [v for v in views if v[0] != 'Wallet.info(detail=5)']
+    if len(hist) <= cfg.get('flag_depth', 1):
+        views += w_flag_views()
     s0, replays = explore_state(acc, nd, mat['kind'], hist, make, views, lambda b: b.state())
     return acc.result({'state': s0, 'enabled': w_alphabet(mat, cfg.get('full'), cfg.get('quick'))})
 
@@ -1498,6 +1820,10 @@ def wk_views():
             lambda: pub(b).as_dict(include_private=True))),
         ('WalletKey.public>private_accessors', lambda b: (lambda p: (p.key_private, p.keys_private, p.wif,
                                                                      p.is_private))(pub(b))),
+        # every explicit spelling of the flag that asks for the public form
+        ('WalletKey.as_dict(include_private=<falsy>)', lambda b: [
+            _try(lambda f=f: b.focus.as_dict(include_private=f)) for f in _FALSY] + [
+            _try(lambda f=f: b.focus.as_dict(f)) for f in _FALSY]),
     ]
 
 
@@ -1803,7 +2129,7 @@ def worker_init():
     sys.unraisablehook = lambda *a: None
 
 
-SUBS = {'key': sub_key, 'hdkey': sub_hdkey, 'wtemplate': sub_wtemplate, 'wallet': sub_wallet,
+SUBS = {'key': sub_key, 'hdkey': sub_hdkey, 'hdargs': sub_hdargs, 'wtemplate': sub_wtemplate, 'wallet': sub_wallet,
         'walletkey': sub_walletkey, 'tx': sub_tx, 'dbrest': sub_dbrest}
 
 
@@ -1854,6 +2180,30 @@ def selftest():
     o.s = xprv.encode()
     assert ('[].s', 'v1', 'xprv') in walk([o], nd)
     assert digest({'a': 1, 'b': [b'x']}) == digest({'b': [b'x'], 'a': 1}) != digest({'a': 1, 'b': [b'y']})
+    # request grammar of the argument-form sub-space: every form of a path denotes the same index path, and the
+    # needles of a path family find the published private key of that path (BIP32 vectors 1 and 2), not the xpub
+    assert _path_ints(['M', "0'", '1']) == [H, 1] and _path_ints(['M', '0', '1h']) == [0, 1 | H]
+    assert _path_ints(['M', '1', str(IMAX)]) == [1, IMAX] and _path_ints(['M']) == []
+    assert dict(_path_forms(['M', '0', '1'])) == {'str': 'M/0/1', 'list': ['M', '0', '1'], 'tuple': ('M', '0', '1'),
+                                                  'list-int': ['M', 0, 1]}
+    assert [_path_class(c) for c in (['M'], ['M', '0'], ['m', '3', '2'], ['M', "0'", '1'])] == [
+        'bare M', 'M/i..', 'm/i..', 'M/..hardened..']
+    for vec, path, row in ((0, [H, 1], 2), (1, [0], 1)):
+        mv = bip32.master(bytes.fromhex(bip32.VECTORS[vec][0]))
+        assert bip32.VECTORS[vec][1][row][0] == path
+        ndv = Needles(hd_family('v', mv, 'bitcoin', False, [path]))
+        hits = ndv.text(bip32.VECTORS[vec][1][row][2])
+        assert any(n == 'v/' + _pstr(path) and e == 'xprv' for n, e in hits), hits
+        assert not ndv.text(bip32.VECTORS[vec][1][row][1])
+    ex = _args_extra_paths('bitcoin')
+    for items in PUB_PATHS_Q + PUB_PATHS_T:
+        assert items[0] == 'M' and (len(items) == 1 or _path_ints(items) in ex)
+    assert all([i] in ex or [i] in ([0], [1], [5]) for i in CHILD_INDEXES if i < H)
+    k = filler(0, 'selftest-scalar')
+    assert _private_scalars(Acc('t'), Needles([Secret('o', filler(0, 'other'))]), 's', type('K', (), {
+        'secret': k, 'public_byte': secp.ser(secp.pub(k), True)})(), [], 'r')
+    assert not _private_scalars(Acc('t'), Needles([Secret('o', filler(0, 'other'))]), 's', type('K', (), {
+        'secret': None, 'public_byte': secp.ser(secp.pub(k), True)})(), [], 'r')
 
 
 def bfs_multi(ctx, sub, cfgs, depth):
@@ -1913,6 +2263,30 @@ def run(ctx):
         bounds['hdkey'] = {'configs': len(cfgs), 'depth': depth, 'events': HD_EVENTS + ([] if q else HD_EVENTS_T),
                            'views': [v for v, _ in hd_views()], 'levels': lv}
     lap('hdkey')
+    if want('hdargs'):
+        # argument forms of the public requests, in the states reached by histories of length <= 1 (thorough:
+        # full request grids after <= 1 call of the extended alphabet, quick grids after <= 2 calls)
+        hcfgs = hd_cfgs(ctx.seed, q)
+        kcfgs = key_cfgs(ctx.seed, q)
+        if q:
+            sel = [c for c in hcfgs if (c['src'], c['wt'], c['ms']) in (
+                ('seed', 'segwit', False), ('seed', 'segwit', True), ('xprv_depth3', 'legacy', False),
+                ('seed_uncompressed', 'legacy', False))]
+            runs = [(sel + kcfgs[:3], {'quick': True}, 1)]
+        else:
+            runs = [(hcfgs + kcfgs, {'full': True, 'events_t': True}, 1),
+                    ([c for c in hcfgs if c['src'] in ('seed', 'xprv_depth3', 'seed_uncompressed')][:5], {}, 2)]
+        bounds['hdargs'] = []
+        for cfgs, flags, d in runs:
+            cfgs = [dict(c, **flags) for c in cfgs]
+            lv = bfs_multi(ctx, 'hdargs', cfgs, d)
+            hv = hdargs_views(cfgs[0], bool(flags.get('full')))
+            bounds['hdargs'].append({
+                'configs': ['%s/%s' % (c['kind'], c.get('src') or c.get('form')) for c in cfgs], 'depth': d,
+                'events_hdkey': HD_EVENTS + (HD_EVENTS_T if flags.get('events_t') else []),
+                'requests_per_hdkey_state': len(hv), 'requests_per_key_state': len(flag_views('Key')),
+                'request_sites': sorted(set(v[2] for v in hv)), 'levels': lv})
+    lap('hdargs')
     wk_which = {'hd_segwit_test': ['main', 'address'], 'single_btc': ['main'], 'hd_imported_test': ['imported'],
                 'single_unc_btc': ['main']}
     if not q:
